@@ -21,6 +21,8 @@
 -/
 import PyTough.Model.Fixed
 import PyTough.Gen.Specs
+import PyTough.Gen.Conventions
+import PyTough.Gen.GeoTables
 
 namespace Model.GeoFile
 open Py Model
@@ -139,26 +141,29 @@ def pyIdx (n : Nat) (i : Int) : Except Exc Nat :=
   else if -(n : Int) ≤ i ∧ i < 0 then .ok (i + n).toNat
   else .error .indexError
 
-/-- `[3, 2, 3, 3][self.convention]` -/
+/-- `[3, 2, 3, 3][self.convention]` — the list literal is taken from /repo (`Gen/Conventions.lean`) -/
 def colnameLength (conv : Int) : Except Exc Nat := do
-  let i ← pyIdx 4 conv
-  pure ([3, 2, 3, 3].getD i 0)
+  let i ← pyIdx Gen.Conventions.colnameLength.length conv
+  pure (Gen.Conventions.colnameLength.getD i 0)
 
 /-- `[2, 3, 2, 2][self.convention]` -/
 def layernameLength (conv : Int) : Except Exc Nat := do
-  let i ← pyIdx 4 conv
-  pure ([2, 3, 2, 2].getD i 0)
+  let i ← pyIdx Gen.Conventions.layernameLength.length conv
+  pure (Gen.Conventions.layernameLength.getD i 0)
 
 /-- `['ATM', ' 0', '  0', 'ATM'][self.convention]` -/
 def atmosColumnName (conv : Int) : Except Exc Str := do
-  let i ← pyIdx 4 conv
-  pure ([['A', 'T', 'M'], [' ', '0'], [' ', ' ', '0'], ['A', 'T', 'M']].getD i [])
+  let i ← pyIdx Gen.Conventions.atmosphereColumnName.length conv
+  pure (Gen.Conventions.atmosphereColumnName.getD i [])
 
 def feet : Str := ['F', 'E', 'E', 'T', ' ']
 
-/-- `{'': 1.0, 'FEET ': 0.3048}[unit_type]` -/
+/-- `{'': 1.0, 'FEET ': 0.3048}[unit_type]` — the dictionary literal is taken from /repo
+    (`Gen/GeoTables.lean`; each scale is the exact decimal written) -/
 def unitScale (u : Str) : Except Exc Rat :=
-  if u = [] then .ok 1 else if u = feet then .ok (mkRat 381 1250) else .error .keyError
+  match Gen.GeoTables.unitScale.find? (·.1 = u) with
+  | some (_, n, d) => .ok (mkRat n d)
+  | none => .error .keyError
 
 /-- `set_secondary_variables()`: the table look-ups that can raise -/
 def checkSecondary (h : Header) : Except Exc Unit := do
@@ -271,6 +276,9 @@ def setAll : Header → List (String × PVal) → Except Exc Header
     let h' ← h.set n v
     setAll h' r
 
+def layerColumnName : Str := ['l', 'a', 'y', 'e', 'r', '_', 'c', 'o', 'l', 'u', 'm', 'n']
+def dmplexName : Str := ['d', 'm', 'p', 'l', 'e', 'x']
+
 /-- `mulgrid.read_header` applied to the header line -/
 def readHeader (sp : Specs) (h0 : Header) (line : Str) : Except Exc Header := do
   let vals ← parseString .default sp.header line
@@ -280,10 +288,15 @@ def readHeader (sp : Specs) (h0 : Header) (line : Str) : Except Exc Header := do
   let h := if (strip h.unitType).isEmpty then { h with unitType := [] } else h
   let _ ← unitScale h.unitType             -- self.unit_type = self._unit_type
   match h.blockOrderInt with
-  | some 0 => pure { h with blockOrder := some 0 }
-  | some 1 => pure { h with blockOrder := some 1 }
-  | some _ => .error .generic              -- raise Exception('Unrecognised mulgrid block order')
   | none => pure h
+  | some i =>
+    -- block_orders = {0: 'layer_column', 1: 'dmplex'} (from /repo); `blockOrder` holds 0 / 1 for these two names
+    match Gen.GeoTables.blockOrders.lookup i with
+    | some nm =>
+      if nm = layerColumnName then pure { h with blockOrder := some 0 }
+      else if nm = dmplexName then pure { h with blockOrder := some 1 }
+      else pure { h with blockOrder := some 2 }     -- a name the rest of the code does not know
+    | none => .error .generic              -- raise Exception('Unrecognised mulgrid block order')
 
 /-! ### lines -/
 
@@ -552,16 +565,16 @@ inductive Keyword where
   | verti | grid | conne | layer | surfa | wells
   deriving DecidableEq, Repr
 
-/-- `read_fn[line[0:5].rstrip()]` -/
+/-- `read_fn[line[0:5].rstrip()]` — the dispatch dictionary is taken from /repo (`Gen/GeoTables.lean`) -/
 def keywordOf (k : Str) : Option Keyword :=
-  if k = ['V', 'E', 'R', 'T', 'I'] then some .verti
-  else if k = ['G', 'R', 'I', 'D'] then some .grid
-  else if k = ['C', 'O', 'N', 'N', 'E'] then some .conne
-  else if k = ['L', 'A', 'Y', 'E', 'R'] then some .layer
-  else if k = ['S', 'U', 'R', 'F', 'A'] then some .surfa
-  else if k = ['S', 'U', 'R', 'F'] then some .surfa
-  else if k = ['W', 'E', 'L', 'L', 'S'] then some .wells
-  else none
+  match Gen.GeoTables.readKeywords.lookup k with
+  | some "read_nodes" => some .verti
+  | some "read_columns" => some .grid
+  | some "read_connections" => some .conne
+  | some "read_layers" => some .layer
+  | some "read_surface" => some .surfa
+  | some "read_wells" => some .wells
+  | _ => none
 
 /-- one section: the reader pads its first line (`padstring(geo.readline())`) -/
 def readSection (sp : Specs) (kw : Keyword) (g : Geo) (ls : List Str) : Except Exc (Geo × List Str) := do
@@ -618,12 +631,14 @@ def lineOf (fs : List FieldSpec) (vals : List Val) : Except Exc Str := do
 
 def kwLine (s : Str) : Str := s ++ ['\n']
 
-def kwVertices : Str := ['V', 'E', 'R', 'T', 'I', 'C', 'E', 'S']
-def kwGrid : Str := ['G', 'R', 'I', 'D']
-def kwConnections : Str := ['C', 'O', 'N', 'N', 'E', 'C', 'T', 'I', 'O', 'N', 'S']
-def kwLayers : Str := ['L', 'A', 'Y', 'E', 'R', 'S']
-def kwSurfa : Str := ['S', 'U', 'R', 'F', 'A']
-def kwWells : Str := ['W', 'E', 'L', 'L', 'S']
+/-- the keyword line a section writer starts with (`geo.write('VERTICES\n')` …), taken from /repo -/
+def kwOf (writer : String) : Str := (Gen.GeoTables.writeKeywords.lookup writer).getD []
+def kwVertices : Str := kwOf "write_nodes"
+def kwGrid : Str := kwOf "write_columns"
+def kwConnections : Str := kwOf "write_connections"
+def kwLayers : Str := kwOf "write_layers"
+def kwSurfa : Str := kwOf "write_surface"
+def kwWells : Str := kwOf "write_wells"
 
 def writeHeader (sp : Specs) (h : Header) : Except Exc Str :=
   lineOf sp.header (sp.headerNames.map h.get)
@@ -718,11 +733,19 @@ def fixBlockname (name : Str) : Except Exc Str := do
     else pure name
   else pure name
 
+/-- `block_name`: which part comes first and the slice bounds of the two parts, as coded
+    (`if self.convention in [0, 3]: … elif self.convention == 1: … else: …`);
+    `Props.C03.tables_are_current` checks it against the table extracted from /repo -/
+def blockParts (conv : Int) : Bool × (Nat × Nat) × (Nat × Nat) :=
+  if conv = 0 ∨ conv = 3 then (true, (0, 3), (0, 2))
+  else if conv = 1 then (false, (0, 3), (0, 2))
+  else (false, (0, 2), (0, 3))
+
 /-- `block_name(layername, colname)` -/
 def blockName (conv : Int) (layername colname : Str) : Except Exc Str :=
-  if conv = 0 ∨ conv = 3 then fixBlockname (slice colname 0 3 ++ slice layername 0 2)
-  else if conv = 1 then fixBlockname (slice layername 0 3 ++ slice colname 0 2)
-  else fixBlockname (slice layername 0 2 ++ slice colname 0 3)
+  let p := blockParts conv
+  if p.1 then fixBlockname (slice colname p.2.1.1 p.2.1.2 ++ slice layername p.2.2.1 p.2.2.2)
+  else fixBlockname (slice layername p.2.1.1 p.2.1.2 ++ slice colname p.2.2.1 p.2.2.2)
 
 /-- `col.surface > lay.bottom` (`None > float` raises TypeError) -/
 def above (c : GColumn) (l : GLayer) : Except Exc Bool :=
